@@ -1,14 +1,21 @@
-(* C04 correspondence runner: evaluates every modelled structure on one bit string and a list of queries.
+(* C04 correspondence runner: evaluates every modelled structure on one bit string and a list of queries, and the
+   BitVector state machine on an operation history.
    Bits are given run-length encoded; a query is (op, arg); the observation is a Z, -1 for None/Err.
    op 0..10: as in Model.run_queries (SE512 rank1 rank0 select1 select0 get, FewOne rank1 select1 get,
              interleaved-256 rank1 rank0 get);
    op 11 interleaved-256 select1 (select cache on, the given sample rate), 12 interleaved-256 select0,
       13 interleaved-256 select1 with the select cache disabled,
       14 select1_hardware_accelerated, 15 select1_adaptive (cache on), 16 select1_optimized (cache off),
-      17 select1_bulk(&[k]) (cache on), 18 select1_bulk_optimized(&[0, k]) (cache off; the answer for k).
+      17 select1_bulk(&[k]) (cache on), 18 select1_bulk_optimized(&[0, k]) (cache off; the answer for k);
+   op 20..24 SE256 rank1 rank0 select1 select0 get (the same two select-cache flags as SE512);
+   op 30..34 Simple rank1 rank0 select1 select0 get;
+   op 40..44 FewZero rank1 rank0 select1 select0 get; 45 FewOne rank0, 46 FewOne select0;
+   op 50..55 count_ones of SE512, SE256, Simple, FewZero, FewOne, interleaved-256 (argument ignored);
+   op 56..59 interleaved-256 rank1_hardware_accelerated, rank1_adaptive, rank1_optimized, rank1_bulk(&[p])[0].
    Definitions only. *)
 From Coq Require Import List Arith NArith ZArith Bool.
-From ZV.C04 Require Import Spec Model ModelIL ModelGen ModelILSel.
+From ZV.Common Require Import Run.
+From ZV.C04 Require Import Spec Model ModelIL ModelGen ModelILSel ModelSE256 ModelSimple ModelFew2 ModelBV.
 Import ListNotations.
 
 Definition run_queries2 (bs : list bool) (sp0 sp1 : bool) (rate : N) (qs : list (N * N)) : list Z :=
@@ -17,6 +24,9 @@ Definition run_queries2 (bs : list bool) (sp0 sp1 : bool) (rate : N) (qs : list 
   let il := il_build bs in
   let ila := ils_build bs true (N.to_nat rate) in
   let ilb := ils_build bs false (N.to_nat rate) in
+  let s2 := se256_build bs sp0 sp1 in
+  let sm := simple_build bs in
+  let fz := fz_build bs in
   map (fun '(op, a) =>
     let n := N.to_nat a in
     match op with
@@ -39,5 +49,47 @@ Definition run_queries2 (bs : list bool) (sp0 sp1 : bool) (rate : N) (qs : list 
     | 16 => obs (ils_select1 ilb n)
     | 17 => obs (option_map (fun l => nth O l O) (ils_select1_bulk ila [n]))
     | 18 => obs (option_map (fun l => nth (S O) l O) (ils_select1_bulk ilb [O; n]))
+    | 20 => obs (se256_rank1 s2 n)
+    | 21 => obs (se256_rank0 s2 n)
+    | 22 => obs (se256_select1 s2 n)
+    | 23 => obs (se256_select0 s2 n)
+    | 24 => obsb (se256_get s2 n)
+    | 30 => obs (simple_rank1 sm n)
+    | 31 => obs (simple_rank0 sm n)
+    | 32 => obs (simple_select1 sm n)
+    | 33 => obs (simple_select0 sm n)
+    | 34 => obsb (simple_get sm n)
+    | 40 => obs (fz_rank1 fz n)
+    | 41 => obs (fz_rank0 fz n)
+    | 42 => obs (fz_select1 fz n)
+    | 43 => obs (fz_select0 fz n)
+    | 44 => obsb (fz_get fz n)
+    | 45 => obs (few_rank0 f n)
+    | 46 => obs (few_select0 f n)
+    | 50 => Z.of_nat (max_rank1 s)
+    | 51 => Z.of_nat (mr1_256 s2)
+    | 52 => Z.of_nat (sm_mr1 sm)
+    | 53 => Z.of_nat (fz_count_ones fz)
+    | 54 => Z.of_nat (few_count_ones f)
+    | 55 => Z.of_nat (il_ones il)
+    | 56 => Z.of_nat (il_rank1 il n)
+    | 57 => Z.of_nat (il_rank1 il n)
+    | 58 => Z.of_nat (il_rank1 il n)
+    | 59 => Z.of_nat (il_rank1 il n)
     | _ => (-9)%Z
     end%N) qs.
+
+(* one generated case: either a bit string with queries, or a BitVector history
+   (start: new or with_size(n, v); ops (opcode, index, bit); expected observations, final blocks(), final len()) *)
+Inductive c04case :=
+  | RS (runs : list (bool * N)) (sp0 sp1 : bool) (rate : N) (qs : list (N * N)) (expect : list Z)
+  | BV (init_size : N) (init_val use_init : bool) (ops : list (N * N * N))
+       (expect : list Z) (expect_blocks : list N) (expect_len : N).
+
+Definition case_ok (c : c04case) : bool :=
+  match c with
+  | RS runs sp0 sp1 rate qs expect => eqb_lz (run_queries2 (expand runs) sp0 sp1 rate qs) expect
+  | BV n v u ops expect eb el =>
+      let '(o, bl, ln) := bv_run_case n v u ops in
+      eqb_lz o expect && eqb_ln bl eb && N.eqb ln el
+  end.
